@@ -542,6 +542,24 @@ var v6MsgTypes = []dhcpv6.MessageType{
 // srv_genMsg6 builds a valid DHCPv6 message with the library's own types:
 // every client/server message type, the usual options, 0..3 relay levels.
 func srv_genMsg6(r *Rng) (dhcpv6.DHCPv6, string) {
+	// half of the messages come from the full C02 generator: every option type the
+	// library parses (opaque DUIDs, NTP, 4RD, embedded DHCPv4, vendor options,
+	// unknown codes, ...) in relay chains of depth 0..3 (seeded change C14-5: a
+	// parser that keeps a sub-slice of the datagram only for a rare option kind)
+	if r.Bool() {
+		d := genMsg6(r, r.Pick([]int{0, 0, 1, 2, 3}), false)
+		depth, cur := 0, d
+		for cur.IsRelay() {
+			im, err := dhcpv6.DecapsulateRelay(cur)
+			if err != nil || im == nil {
+				break
+			}
+			cur = im
+			depth++
+		}
+		t := uint8(cur.Type())
+		return d, fmt.Sprintf("v6type=%d relay=%d full", t, depth)
+	}
 	m := &dhcpv6.Message{MessageType: v6MsgTypes[r.Intn(len(v6MsgTypes))]}
 	copy(m.TransactionID[:], r.Bytes(3))
 	if r.Chance(1, 6) {
@@ -644,7 +662,23 @@ func genGood4(r *Rng) ([]byte, string) {
 		p.Options[53] = []byte{t}
 		tag = fmt.Sprintf("v4type=%d", t)
 	}
-	return p.ToBytes(), tag
+	b := p.ToBytes()
+	// wire-level corners that still decode (seeded change C14-4: a hardware
+	// address length above 16 must be clamped, not sliced with)
+	switch r.Intn(12) {
+	case 0:
+		b[2] = byte(r.Range(17, 255))
+		tag += " hlen>16"
+	case 1:
+		b[2] = byte(r.Pick([]int{0, 1, 15, 16}))
+		tag += " hlen-odd"
+	case 2:
+		// bytes behind the first NUL of sname / file
+		copy(b[44+r.Intn(40):], []byte{0, 'x', 'y'})
+		copy(b[108+r.Intn(100):], []byte{0, 'z'})
+		tag += " nul-in-names"
+	}
+	return b, tag
 }
 
 // genPeer draws a sender address; ports are unique within a scenario so that
@@ -909,21 +943,30 @@ func expectC14(v6 bool, evs []srvEvent) (exp []expInv, wantExit string, undecoda
 		if len(cut) > srvReadBuf {
 			cut = cut[:srvReadBuf]
 		}
-		if v6 {
-			d, err := dhcpv6.FromBytes(append([]byte(nil), cut...))
-			if err != nil {
-				undecodable[i] = true
-				continue
+		// a decoder that panics on a datagram makes it "undecodable" here; the run of
+		// the real server then shows what the serving loop did with it
+		func() {
+			defer func() {
+				if recover() != nil {
+					undecodable[i] = true
+				}
+			}()
+			if v6 {
+				d, err := dhcpv6.FromBytes(append([]byte(nil), cut...))
+				if err != nil {
+					undecodable[i] = true
+					return
+				}
+				exp = append(exp, expInv{seq: i, canon: canon6(d), ev: e})
+			} else {
+				m, err := dhcpv4.FromBytes(append([]byte(nil), cut...))
+				if err != nil {
+					undecodable[i] = true
+					return
+				}
+				exp = append(exp, expInv{seq: i, canon: canon4(m), ev: e})
 			}
-			exp = append(exp, expInv{seq: i, canon: canon6(d), ev: e})
-		} else {
-			m, err := dhcpv4.FromBytes(append([]byte(nil), cut...))
-			if err != nil {
-				undecodable[i] = true
-				continue
-			}
-			exp = append(exp, expInv{seq: i, canon: canon4(m), ev: e})
-		}
+		}()
 	}
 	return
 }
